@@ -8,6 +8,7 @@
 //! Exit codes: 0 held, 1 violation (with `VIOLATION property=C08 replay=<file>`), 2 harness error.
 
 mod gen;
+mod miri_stage;
 mod rustc_stage;
 mod tree;
 
@@ -85,6 +86,7 @@ struct Cfg {
     jobs: usize,
     repo: PathBuf,
     target: PathBuf,
+    sim_dir: PathBuf,
 }
 
 struct WorkerResult {
@@ -330,6 +332,127 @@ fn run_and_check(h: &History, cfg: &Cfg, oracle: &Oracle, events: bool) -> RunRe
         }
     }
     RunReport { violations, result: Some(res), executed_calls: executed }
+}
+
+enum MiriVerdict {
+    Ok(Value),
+    Violation(String, String, Value),
+    Harness(String),
+}
+
+/// One scenario under Miri with one seed, checked call by call against fresh-process references.
+fn miri_check(threads: &[Vec<Value>], miri_seed: u64, rate: &str, cfg: &Cfg, oracle: &Oracle, slot: usize) -> MiriVerdict {
+    let refs: Vec<Vec<Out>> = threads.iter().map(|t| t.iter().map(|c| oracle.reference(c)).collect()).collect();
+    let dir = cfg.work.join("miri");
+    let _ = std::fs::create_dir_all(&dir);
+    let r = miri_stage::run(threads, miri_seed, rate, &cfg.sim_dir, &cfg.target.join("miri"), &dir.join(format!("plan-{}.json", slot)));
+    let Some(res) = r.json else {
+        let e = r.error.unwrap_or_default();
+        if e.starts_with("harness:") {
+            return MiriVerdict::Harness(e);
+        }
+        return MiriVerdict::Violation("miri:abnormal-termination".into(), format!("the interpreted process did not finish normally: {}", e), Value::Null);
+    };
+    for (t, calls) in threads.iter().enumerate() {
+        for (i, _) in calls.iter().enumerate() {
+            let got = Out::from_json(&res["outcomes"][t][i]);
+            let exp = &refs[t][i];
+            if exp.kind() == "crash" {
+                continue;
+            }
+            // Miri's file-system shim words OS errors differently ("entity not found" for ENOENT):
+            // for a failed open/read compare everything up to the OS error text
+            let os_prefix = |o: &Out| o.head().split("io_error: Os").next().map(|s| s.to_string());
+            let same_io_failure = exp.kind() == "panic" && got.kind() == "panic" && exp.head().contains("io_error: Os") && got.head().contains("io_error: Os") && os_prefix(exp) == os_prefix(&got);
+            if !got.same(exp) && !same_io_failure {
+                return MiriVerdict::Violation(
+                    format!("miri:outcome-mismatch:{}->{}", exp.kind(), got.kind()),
+                    format!("thread {} call {}: expected {} got {} (call order {})", t, i, exp.to_json(), got.to_json(), res["call_order"]),
+                    res.clone(),
+                );
+            }
+        }
+    }
+    MiriVerdict::Ok(res)
+}
+
+
+/// The instruction-level batch (see miri_stage.rs). Returns (evidence, violations, harness errors).
+fn run_miri_batch(miri_n: usize, jobs: usize, small: bool, seed: u64, cfg: &Cfg, oracle: &Oracle, tree: &tree::Tree) -> (Value, Vec<(String, String, Value)>, Vec<String>) {
+    let harness_errors: Mutex<Vec<String>> = Mutex::new(vec![]);
+    let mut miri_json = json!({"skipped": "not requested"});
+    let miri_violations: Mutex<Vec<(String, String, Value)>> = Mutex::new(vec![]);
+    if miri_n > 0 {
+        let mt = cfg.target.join("miri");
+        match miri_stage::available(&cfg.sim_dir, &mt) {
+            Err(e) => {
+                miri_json = json!({"skipped": format!("Miri is not usable here: {}", e)});
+                println!("note: Miri batch skipped ({})", e);
+            }
+            Ok(()) => {
+                let next = AtomicUsize::new(0);
+                let done = AtomicU64::new(0);
+                let calls = AtomicU64::new(0);
+                let orders: Mutex<BTreeSet<String>> = Mutex::new(BTreeSet::new());
+                let det: Mutex<(u64, u64)> = Mutex::new((0, 0));
+                let sample: Mutex<Vec<Value>> = Mutex::new(vec![]);
+                std::thread::scope(|s| {
+                    for slot in 0..jobs {
+                        let (next, done, calls, orders, det, sample, miri_violations, cfg, oracle, tree, harness_errors) = (&next, &done, &calls, &orders, &det, &sample, &miri_violations, cfg, oracle, tree, &harness_errors);
+                        s.spawn(move || loop {
+                            let i = next.fetch_add(1, Ordering::Relaxed);
+                            if i >= miri_n {
+                                break;
+                            }
+                            let sub = simcore::subseed(seed, "C08/miri", i as u64);
+                            let sc = miri_stage::scenario(sub, tree, small);
+                            let v = miri_check(&sc.threads, sc.miri_seed, sc.preemption_rate, cfg, oracle, slot);
+                            match v {
+                                MiriVerdict::Harness(e) => harness_errors.lock().unwrap().push(format!("miri batch: {}", e)),
+                                MiriVerdict::Ok(res) => {
+                                    done.fetch_add(1, Ordering::Relaxed);
+                                    calls.fetch_add(sc.threads.iter().map(|t| t.len() as u64).sum::<u64>(), Ordering::Relaxed);
+                                    orders.lock().unwrap().insert(format!("{}|{}", simcore::fingerprint(json!(sc.threads).to_string().as_bytes()), res["call_order"].as_str().unwrap_or("")));
+                                    if i % 8 == 0 {
+                                        // determinism: the same seed again must give the same run
+                                        if let MiriVerdict::Ok(res2) = miri_check(&sc.threads, sc.miri_seed, sc.preemption_rate, cfg, oracle, slot) {
+                                            let mut d = det.lock().unwrap();
+                                            d.0 += 1;
+                                            if res2["call_order"] != res["call_order"] || res2["outcomes"] != res["outcomes"] {
+                                                d.1 += 1;
+                                            }
+                                        }
+                                    }
+                                    let mut sm = sample.lock().unwrap();
+                                    if sm.len() < 2 {
+                                        sm.push(json!({"subseed": sub, "miri_seed": sc.miri_seed, "preemption_rate": sc.preemption_rate, "threads": sc.threads, "call_order": res["call_order"]}));
+                                    }
+                                }
+                                MiriVerdict::Violation(class, detail, _) => {
+                                    done.fetch_add(1, Ordering::Relaxed);
+                                    let doc = json!({"property": PROP, "flavour": "miri", "subseed": sub, "miri_seed": sc.miri_seed, "preemption_rate": sc.preemption_rate, "violation": {"class": class, "detail": detail}, "plan": {"threads": sc.threads}});
+                                    miri_violations.lock().unwrap().push((class, detail, doc));
+                                }
+                            }
+                        });
+                    }
+                });
+                let d = det.lock().unwrap();
+                if d.1 > 0 {
+                    harness_errors.lock().unwrap().push(format!("Miri runs not reproducible: {} of {} re-runs differed", d.1, d.0));
+                }
+                miri_json = json!({
+                    "what": "shipped (guard-off) worker interpreted by Miri; caller threads preempted at basic-block granularity by Miri's scheduler seeded with -Zmiri-seed; every call compared with its fresh-process reference",
+                    "scenarios_run": done.load(Ordering::Relaxed), "calls_checked": calls.load(Ordering::Relaxed),
+                    "distinct_scenario_x_call_order": orders.lock().unwrap().len(),
+                    "reruns_with_same_seed": d.0, "reruns_that_differed": d.1,
+                    "samples": *sample.lock().unwrap(),
+                });
+            }
+        }
+    }
+
+    (miri_json, miri_violations.into_inner().unwrap(), harness_errors.into_inner().unwrap())
 }
 
 fn has_class(rep: &RunReport, class: &str) -> bool {
@@ -718,6 +841,7 @@ fn main() {
         jobs: simcore::env_usize("VERIF_JOBS", 16),
         repo: PathBuf::from(get("repo", "/repo")),
         target: PathBuf::from(get("target", "/verif/.target")),
+        sim_dir: PathBuf::from(get("sim", "/verif/sim")),
     };
     let repo = cfg.repo.clone();
     let started = Instant::now();
@@ -754,6 +878,25 @@ fn main() {
             println!("VIOLATION property={} replay={}", PROP, file);
             std::process::exit(1);
         }
+        if doc["flavour"] == "miri" {
+            let threads: Vec<Vec<Value>> = doc["plan"]["threads"].as_array().map(|a| a.iter().map(|t| t.as_array().cloned().unwrap_or_default()).collect()).unwrap_or_default();
+            let v = miri_check(&threads, doc["miri_seed"].as_u64().unwrap_or(0), doc["preemption_rate"].as_str().unwrap_or("0.01"), &cfg, &oracle, 0);
+            match v {
+                MiriVerdict::Harness(e) => {
+                    eprintln!("harness error: {}", e);
+                    std::process::exit(2);
+                }
+                MiriVerdict::Ok(_) => {
+                    println!("replay: no violation (under this Miri seed every call equals its fresh-process reference)");
+                    std::process::exit(0);
+                }
+                MiriVerdict::Violation(class, detail, _) => {
+                    println!("replayed violation class={}\n  {}", class, detail);
+                    println!("VIOLATION property={} replay={}", PROP, file);
+                    std::process::exit(1);
+                }
+            }
+        }
         let h = history_from_replay(&doc);
         let rep = run_and_check(&h, &cfg, &oracle, true);
         if let Some(res) = &rep.result {
@@ -788,6 +931,16 @@ fn main() {
     let agg = Mutex::new(Agg::default());
     let stop = AtomicBool::new(false);
     let harness_errors: Mutex<Vec<String>> = Mutex::new(vec![]);
+    // the instruction-level batch runs alongside everything else (it is slow and mostly waits on
+    // the interpreter)
+    let miri_n = simcore::env_usize("VERIF_C08_MIRI", if cmd == "selftest" { 0 } else if tier == "thorough" { 1200 } else { 8 });
+    let miri_jobs = if tier == "thorough" { cfg.jobs } else { 8 };
+    let miri_out: Mutex<Option<(Value, Vec<(String, String, Value)>, Vec<String>)>> = Mutex::new(None);
+    let (det_checked, det_degraded, det_diff, stage_json, stage_violations) = std::thread::scope(|outer| {
+    outer.spawn(|| {
+        let r = run_miri_batch(miri_n, miri_jobs, tier != "thorough", seed, &cfg, &oracle, &tree);
+        *miri_out.lock().unwrap() = Some(r);
+    });
 
     if cmd != "selftest" {
         for (batch, n, tag) in &batches {
@@ -904,6 +1057,10 @@ fn main() {
         }
     }
 
+        (det_checked, det_degraded, det_diff, stage_json, stage_violations)
+    }); // outer scope: the Miri batch has finished too
+    let (miri_json, miri_violation_list, miri_errs) = miri_out.into_inner().unwrap().unwrap_or((json!({"skipped": "not run"}), vec![], vec![]));
+    harness_errors.lock().unwrap().extend(miri_errs);
     let mut agg = agg.into_inner().unwrap();
     let wall = started.elapsed().as_secs_f64();
 
@@ -947,6 +1104,27 @@ fn main() {
         std::fs::write(&path, serde_json::to_string_pretty(&d).unwrap() + "\n").unwrap();
         reported.push((format!("{} (rustc stage)", class), path));
     }
+    {
+        let mut mv = miri_violation_list;
+        mv.sort_by_key(|(_, _, d)| d["plan"].to_string().len());
+        let mut seen: BTreeSet<String> = BTreeSet::new();
+        for (class, _detail, doc) in mv.into_iter() {
+            if findings.iter().any(|f| f.status == "known" && f.signature == class) {
+                *known_hit.entry(class.clone()).or_default() += 1;
+                continue;
+            }
+            if !seen.insert(class.clone()) || seen.len() > 2 {
+                continue;
+            }
+            let _ = std::fs::create_dir_all(&cfg.replays);
+            let path = cfg.replays.join(format!("{}-miri-{}.json", PROP, doc["subseed"]));
+            let mut d = doc.clone();
+            d["how_to_replay"] = json!(format!("./check C08 --replay {}", path.display()));
+            let text = serde_json::to_string_pretty(&d).unwrap().replace(&cfg.tree_root.display().to_string(), "${TREE}");
+            std::fs::write(&path, text + "\n").unwrap();
+            reported.push((format!("{} (Miri batch)", class), path));
+        }
+    }
     let hours = wall / 3600.0;
     let coverage = json!({
         "evaluations": agg.runs,
@@ -975,6 +1153,7 @@ fn main() {
             "stubbed": [],
         },
         "rustc_end_to_end_stage": stage_json,
+        "miri_instruction_level_batch": miri_json,
         "seam": if cfg.hooked.is_some() { "hooked build (--cfg graphql_client_verif)" } else { "unavailable: sequential histories on the guard-off build only" },
         "violation_classes_seen": agg.violations.iter().map(|(_, _, c)| c.clone()).collect::<BTreeSet<_>>(),
         "known_findings_matched": known_hit,
